@@ -33,7 +33,7 @@ ASSUMPTIONS = [
     "forced refresh: |2KE/(dof kT) - 1| <= 1e-9 for T >= 1 K (the implementation adds 1e-15 eV to the temperature before scaling)",
     "normality: |z|>5 on mean/variance or KS p<1e-6 flags; re-measured once with 4x the draws",
 ]
-REQUIRED = {"reversibility_runs": 150, "order_triples": 30, "refresh_batches": 4, "forced_refresh": 100, "hmc_trials": 300, "ke_checked_at_criteria": 300}
+REQUIRED = {"reversibility_runs": 150, "reversibility_runs_with_used_integrator": 50, "order_runs_with_used_integrator": 20, "order_triples": 30, "refresh_batches": 4, "forced_refresh": 100, "hmc_trials": 300, "ke_checked_at_criteria": 300}
 SHARD_TIMEOUT = {"quick": 900, "thorough": 3000}
 
 
@@ -101,8 +101,19 @@ def run_reverse(spec, rec):
         ctx = make_ctx(atoms, derive_seed("r", i))
         x0, p0 = atoms.get_positions(), atoms.get_momenta()
         integ = Verlet(dt=dt_fs, max_steps=steps, apply_constraints=appl)
-        wit = {"potential": kind, "natoms": len(atoms), "omega_dt": wdt, "dt_fs": dt_fs, "steps": steps, "apply_constraints": appl, "T": T}
+        # history of the integrator object: fresh, or already used on these atoms for a proposal that was then undone
+        # from outside (positions and momenta put back, as a rejected or vetoed Hamiltonian trial does)
+        used = i % 2 == 1
+        wit = {"potential": kind, "natoms": len(atoms), "omega_dt": wdt, "dt_fs": dt_fs, "steps": steps, "apply_constraints": appl, "T": T, "integrator": "used before, state restored from outside" if used else "fresh"}
         try:
+            if used:
+                integ.integrate(ctx)
+                if i % 4 == 1:
+                    atoms.positions = x0.copy()
+                else:
+                    atoms.set_positions(x0.copy(), apply_constraint=False)
+                atoms.set_momenta(p0.copy(), apply_constraint=False)
+                rec.count("reversibility_runs_with_used_integrator")
             # forward sensitivity of the trajectory (how much a 1e-9 perturbation grows): rounding errors
             # injected on the way are amplified by at most about this factor on the way back
             twin = atoms.copy()
@@ -133,11 +144,11 @@ def run_reverse(spec, rec):
         ep = np.abs(pb - p0).max() / pscale
         moved = np.abs(x1 - x0).max()
         if moved > 0 and np.abs(p0).max() > 0:
-            rec.case("rev", kind, len(atoms), round(wdt, 1), steps, appl)
+            rec.case("rev", kind, len(atoms), round(wdt, 1), steps, appl, used)
         if moved == 0:
             rec.viol("C14/integrator-does-not-move", "integration left positions unchanged although momenta are non-zero", wit)
         elif ex_ > tol or ep > tol:
-            rec.viol(f"C14/not-reversible/apply_constraints={appl}", f"forward-flip-forward misses the start by {ex_:.3g} (positions), {ep:.3g} (momenta)", {**wit, "err_pos": ex_, "err_mom": ep})
+            rec.viol(f"C14/not-reversible/apply_constraints={appl}" + ("/integrator-used-before" if used else ""), f"forward-flip-forward misses the start by {ex_:.3g} (positions), {ep:.3g} (momenta)", {**wit, "err_pos": ex_, "err_mom": ep})
         rec.sample({**wit, "err_pos": ex_, "err_mom": ep}, cap=2)
 
 
@@ -154,6 +165,10 @@ def run_order(spec, rec):
         appl = bool(rng.random() < 0.5)
         chunks, base = 12, int(rng.integers(4, 12))
         errs = []
+        # history of the integrator object in every other case: already used on these atoms for a proposal that was
+        # then undone from outside (positions and momenta put back), as after a rejected Hamiltonian trial
+        shared = i % 4 >= 2
+        x00 = atoms0.get_positions()
         try:
             for h in (0, 1, 2, 3):
                 atoms = atoms0.copy()
@@ -163,8 +178,13 @@ def run_order(spec, rec):
                 atoms.calc.results = {}
                 atoms.set_momenta(p0.copy())
                 ctx = make_ctx(atoms, derive_seed("o", i, h))
-                e0 = atoms.get_total_energy()
                 integ = Verlet(dt=wdt / omega / FS / 2**h, max_steps=base * 2**h, apply_constraints=appl)
+                if shared:
+                    integ.integrate(ctx)
+                    atoms.positions = x00.copy()
+                    atoms.set_momenta(p0.copy(), apply_constraint=False)
+                    rec.count("order_runs_with_used_integrator")
+                e0 = atoms.get_total_energy()
                 emax = 0.0
                 for _ in range(chunks):
                     integ.integrate(ctx)
@@ -174,16 +194,16 @@ def run_order(spec, rec):
             rec.viol(f"C14/integrate-raised/{type(ex).__name__}", f"Verlet.integrate raised {ex}", {"potential": kind})
             continue
         rec.evaluations += 1
-        wit = {"potential": kind, "natoms": len(atoms0), "omega_dt": wdt, "apply_constraints": appl, "energy_errors_dt_dt2_dt4_dt8": errs}
+        wit = {"potential": kind, "natoms": len(atoms0), "omega_dt": wdt, "apply_constraints": appl, "energy_errors_dt_dt2_dt4_dt8": errs, "integrator": "used before, state restored from outside" if shared else "fresh"}
         if min(errs) < 1e-10:
             rec.count("order_unresolved")
             continue
         rec.count("order_triples")
         # the order is a statement about dt -> 0: judge the two finest halvings
         slope = math.log2(errs[1] / errs[3]) / 2
-        rec.case("order", kind, len(atoms0), round(wdt, 2), appl)
+        rec.case("order", kind, len(atoms0), round(wdt, 2), appl, shared)
         if not 1.7 <= slope <= 2.3:
-            rec.viol("C14/energy-error-order", f"total-energy error scales with dt^{slope:.2f}, expected dt^2", {**wit, "order": slope})
+            rec.viol("C14/energy-error-order" + ("/integrator-used-before" if shared else ""), f"total-energy error scales with dt^{slope:.2f}, expected dt^2", {**wit, "order": slope})
         rec.sample({**wit, "order": slope}, cap=2)
 
 
